@@ -39,7 +39,13 @@ LIN = {"lin1": 1, "lin2": 2, "lin3": 3}     # formula kernels (harness/cxx2lin.p
 RIMP = ("matmul", "identity", "affine_apply", "translation", "scaling")     # harness/cxx2rimp.py
 
 
+OWN = ("copy_assign", "copy_ctor", "members")     # harness/cxx2own.py
+
+
 def _translate(k):
+    if k in OWN:
+        from harness import cxx2own
+        return cxx2own.translate(str(C.REPO), k), {"scalars": [], "arrays": []}
     if k in RIMP:
         from harness import cxx2rimp
         return cxx2rimp.translate(str(C.REPO), k)
@@ -50,6 +56,9 @@ def _translate(k):
 
 
 def _where(k):
+    if k in OWN:
+        from harness import cxx2own
+        return cxx2own.KERNELS[k]
     if k in RIMP:
         from harness import cxx2rimp
         return cxx2rimp.KERNELS[k][1]
